@@ -99,6 +99,18 @@ def seq_after(lab, ref, spec, root, st, res, witness):
 def run_case(case) -> CaseResult:
     res = CaseResult()
     rng = random.Random(case['seed'])
+    if case.get('kind') == 'multi':
+        # chains that share task objects (MultiChain): closures asked by task object in every member; only closure discrepancies are judged here
+        from . import c13
+        for i in range(case['n']):
+            tmp = CaseResult()
+            c13.run_multi_case(rng, tmp)
+            res.count('multichain_member_closures_checked', tmp.counters.get('member_closures_checked', 0))
+            res.inconclusive += tmp.inconclusive
+            for v in tmp.violations:
+                if (v.get('facts') or {}).get('tag') == 'member_closures':
+                    res.violations.append(v)
+        return res
     for i in range(case['n']):
         inject = None
         r = rng.random()
@@ -116,3 +128,5 @@ def cases(tier, seed):
     n = 150 if tier == 'quick' else 5000
     for i in range(n):
         yield {'n': 8, 'seed': rng.randrange(1 << 30), 'parameter_mode': (i % 6 != 5)}
+        if i % 5 == 2:
+            yield {'kind': 'multi', 'n': 4, 'seed': rng.randrange(1 << 30)}
